@@ -30,10 +30,20 @@ type c12Case struct {
 	Seq       string `json:"seq,omitempty"`
 	HybridPos int    `json:"hybrid_pos,omitempty"`
 	HybridBit int    `json:"hybrid_bit,omitempty"`
+	// batch mode: Batch messages derived from BatchSeed, each encrypted to a fresh recipient key derived from
+	// BatchSeed and its index, and decrypted by that recipient
+	Batch     int         `json:"batch,omitempty"`
+	BatchSeed vstat.Bytes `json:"batch_seed,omitempty"`
 }
 
 func genC12(t *rapid.T) c12Case {
-	c := c12Case{Mode: rapid.SampledFrom([]string{"roundtrip", "roundtrip", "roundtrip", "arbitrary"}).Draw(t, "mode")}
+	c := c12Case{Mode: rapid.SampledFrom([]string{"roundtrip", "roundtrip", "roundtrip", "arbitrary", "batch"}).Draw(t, "mode")}
+	if c.Mode == "batch" {
+		c.CtxD = ctxGen.Draw(t, "ctxd")
+		c.Batch = rapid.IntRange(16, 64).Draw(t, "batch")
+		c.BatchSeed = rapid.SliceOfN(rapid.Byte(), 4, 8).Draw(t, "batchseed")
+		return c
+	}
 	c.KeyD = rapid.IntRange(0, 3).Draw(t, "keyd")
 	c.CtxD = ctxGen.Draw(t, "ctxd")
 	if c.Mode == "arbitrary" {
@@ -76,6 +86,28 @@ func checkC12(c c12Case) (o vstat.Outcome) {
 			pt, err := peer.DecryptWithPrivKey(kd, c.CtxD, c.Raw)
 			if err == nil {
 				return vstat.Viol("arbitrary-bytes-decrypt", "arbitrary %d-byte string decrypted to %x", len(c.Raw), pt)
+			}
+			return nil
+		})
+		return
+	}
+	if c.Mode == "batch" {
+		// many (recipient, message) pairs: every honest recipient can be encrypted to and reads its message
+		o.NonTrivial = true
+		o.V = vstat.Guard("EncryptToPubKey/DecryptWithPrivKey", func() *vstat.Violation {
+			for i := 0; i < c.Batch; i++ {
+				seed := append(append([]byte("c12-batch"), c.BatchSeed...), byte(i), byte(i>>8))
+				k := gen.KeyFromSeed(seed)
+				m := gen.DetBytes("c12-batch-msg"+string(seed), 1+i%40)
+				ct, err := peer.EncryptToPubKey(k.GetPublic(), c.CtxD, m)
+				if err != nil {
+					pid, _ := peer.IDFromPrivateKey(k)
+					return vstat.Viol("encrypt-failed", "EncryptToPubKey failed for the honestly generated recipient %s (batch index %d): %v", pid, i, err)
+				}
+				pt, err := peer.DecryptWithPrivKey(k, c.CtxD, ct)
+				if err != nil || !bytes.Equal(pt, m) {
+					return vstat.Viol("roundtrip-failed", "batch index %d: the recipient cannot read a %d-byte message encrypted to it under the same context: %v", i, len(m), err)
+				}
 			}
 			return nil
 		})
@@ -195,7 +227,7 @@ func checkC12(c c12Case) (o vstat.Outcome) {
 var specC12 = vstat.Spec[c12Case]{
 	Property: "C12",
 	Rule: "encrypt (4 keys, generated contexts, messages 0..200 B or 1 KiB-70 KB) then decrypt with same/different key and context after 0-2 byte mutations (flip/truncate/extend/insert/delete/dup) or a swapped 36-byte prefix; " +
-		"plus arbitrary byte strings 0..120 B (dense around 30..52) as ciphertext; oracle: exact round trip, otherwise an error and never a panic; non-trivial = any differing component or arbitrary input",
+		"plus arbitrary byte strings 0..120 B (dense around 30..52) as ciphertext; plus batches of 16-64 fresh recipient keys each sent one short message (many distinct one-time keys and recipients); oracle: exact round trip, otherwise an error and never a panic; non-trivial = any differing component or arbitrary input",
 	Gen:   genC12,
 	Check: checkC12,
 }
